@@ -45,6 +45,8 @@ def disc_patterns(v, repr, all_unit):
             cands.append([-1 - i for i in range(v)])           # negative, decreasing
             cands.append([lo + (v - 1 - i) for i in range(v)])
         cands.append([10 * (v - i) for i in range(v)])         # plain decreasing
+        cands.append(([1] + [hi - i for i in range(v - 1)]) if v > 1 else [hi])      # a small value next to the largest ones
+        cands.append(([hi] + [2 + i for i in range(v - 1)]) if v > 1 else [lo])
         cands.append([3 + 4 * i for i in range(v)])            # increasing with gaps
     if v >= 2:
         cands.append([5, None] + [1] * (v - 2))                # gap, implicit continuation, then smaller
